@@ -15,6 +15,7 @@ package x86asm
 //@ pure func decoded_ok(i Inst, n int) bool = 1 <= i.Len && i.Len <= 15 && i.Len <= n && i.PCRelOff >= 0 && i.PCRelOff <= 15
 //@   | && (i.PCRelOff > 0 ==> (i.PCRel == 1 || i.PCRel == 2 || i.PCRel == 4 || i.PCRel == 8) && i.PCRelOff + i.PCRel <= i.Len)
 //@   | && (i.PCRel == 2 ==> i.PCRelOff >= 2)
+//@   | && (i.PCRelOff > 0 && i.PCRel <= 2 ==> i.PCRelOff + i.PCRel == i.Len)
 
 //@ trusted func Decode
 //@   props C16 C03
